@@ -507,6 +507,182 @@ def register(reg):
     )
 
 
+def register_nested(reg):
+    """visit_TryInterrupt for a try-interrupt statement NESTED in a block of another one.
+
+    Documentation (statements.rst, try-interrupt): `break`, `continue` and `return` inside a block of a try-interrupt
+    statement act on the loop / behavior that CONTAINS the statement, however deeply the block is nested.  Since every
+    block is compiled into its own function, an inner statement that sits inside a block function must hand such a
+    conclusion to the enclosing statement (it cannot execute a Python break/continue there, and a plain `return value`
+    would look like normal completion of the enclosing block)."""
+
+    def setup(I, env):
+        K = ["return", "break", "continue"][MD.pick(I, 3, "the inner handler executes return 42 / break / continue")]
+        in_loop_of_block = MD.pick(I, 2, "inner statement directly in the outer body block / inside a `while` of that block") == 1
+        outer_in_loop = MD.pick(I, 2, "outer statement inside a loop of the behavior?") == 1
+        env.vars["_case"] = (K, in_loop_of_block, outer_in_loop)
+        I.eng.input_syms.append(("case", C.Const(None), repr((K, in_loop_of_block, outer_in_loop))))
+        ctl = {"return": ast.Return(ast.Constant(42)), "break": ast.Break(), "continue": ast.Continue()}[K]
+
+        def clause(tag, body):
+            h = PObj("InterruptWhenHandler", tag=tag)
+            h.fields.update(cond=ast.Name(f"cond_{tag}", ast.Load()), body=PList(body))
+            return h
+
+        def try_interrupt(tag, body, handlers):
+            n = PObj("TryInterrupt", tag=tag)
+            n.fields.update(body=PList(body), interrupt_when_handlers=PList(handlers), except_handlers=PList(), orelse=PList(), finalbody=PList())
+            return n
+
+        marker = lambda nm: ast.Expr(ast.Name(nm, ast.Load()))  # noqa: E731
+        inner = try_interrupt("inner", [marker("inner_body")], [clause("inner", [ctl])])
+        placed = ast.While(test=ast.Constant(True), body=PList([inner]), orelse=PList()) if in_loop_of_block else inner
+        outer = try_interrupt("outer", [placed, marker("after_inner")], [clause("outer", [marker("outer_handler")])])
+        self = PObj(repo_class(f"{CP}:ScenicToPythonTransformer"), tag="transformer")
+        self.fields.update(inTryInterrupt=False, inInterruptBlock=False, inLoop=outer_in_loop, usedBreak=False, usedContinue=False, inGuard=False)
+        cls = repo_class(f"{CP}:ScenicToPythonTransformer")
+
+        def real(name, node):
+            return I.run_function(I.find_method(cls, name), [self, node], {}, None)
+
+        def visit(x):
+            if isinstance(x, PList):
+                out = []
+                for stmt in x.items:
+                    r = visit(stmt)
+                    out.extend(r.items if isinstance(r, PList) else [r])
+                return PList(out)
+            if isinstance(x, PObj) and x.cls == "TryInterrupt":
+                return real("visit_TryInterrupt", x)
+            for ty, m in ((ast.Break, "visit_Break"), (ast.Continue, "visit_Continue"), (ast.Return, "visit_Return"), (ast.While, "visit_While")):
+                if isinstance(x, ty):
+                    return real(m, x)
+            return x
+
+        def generic_visit(node):
+            if isinstance(node, ast.While):
+                node.body = visit(node.body)
+            return node
+
+        self.fields["visit"] = BuiltinFn("visit", visit)
+        self.fields["generic_visit"] = BuiltinFn("generic_visit", generic_visit)
+        env.vars.update(self=self, node=outer)
+
+    def L(x):
+        return list(x.items) if isinstance(x, PList) else list(x)
+
+    def bare_loop_control(stmts):
+        """break/continue statements of a function body that are not inside a loop of that function."""
+        bad = []
+        for st in L(stmts):
+            if isinstance(st, (ast.Break, ast.Continue)):
+                bad.append(type(st).__name__.lower())
+            elif isinstance(st, ast.If):
+                bad += bare_loop_control(st.body) + bare_loop_control(st.orelse)
+        return bad
+
+    def all_functions(stmts):
+        out = []
+        for st in L(stmts):
+            if isinstance(st, ast.FunctionDef):
+                out.append(st)
+                out += all_functions(st.body)
+            elif isinstance(st, (ast.If, ast.While)):
+                out += all_functions(st.body) + all_functions(st.orelse)
+        return out
+
+    def checks(stmts):
+        """{conclusion name: the `if <result> is BlockConclusion.X:` statement} among the given statements."""
+        out = {}
+        for st in L(stmts):
+            if isinstance(st, ast.If) and isinstance(st.test, ast.Compare) and isinstance(st.test.left, ast.Name):
+                comp = L(st.test.comparators)
+                if comp and isinstance(comp[0], ast.Attribute) and getattr(comp[0].value, "id", None) == "BlockConclusion":
+                    out[comp[0].attr] = st
+        return out
+
+    def returned(ifstmt):
+        b = L(ifstmt.body)
+        return b[0] if b else None
+
+    def post(I, env, outcome):
+        eng = I.eng
+        name = "compiler.ScenicToPythonTransformer.visit_TryInterrupt[nested]"
+        K, in_loop_of_block, outer_in_loop = env.vars["_case"]
+        if outcome[0] != "return":
+            eng.check(f"{name}#ensures.compiles_without_error", False, detail=repr(outcome[1]))
+            return
+        top = L(I.iterate(outcome[1]))
+        fns = {f.name: f for f in top if isinstance(f, ast.FunctionDef)}
+        body_fn = [f for nm, f in fns.items() if nm.endswith("_body")]
+        eng.check(f"{name}#ensures.outer_body_compiled_into_a_block_function", len(body_fn) == 1)
+        if len(body_fn) != 1:
+            return
+        block = L(body_fn[0].body)
+        inner_stmts = block
+        if in_loop_of_block:
+            loops = [st for st in block if isinstance(st, ast.While)]
+            inner_stmts = L(loops[0].body) if loops else []
+        detail = f"inner handler: {K}; inner statement {'inside a while of' if in_loop_of_block else 'directly in'} the outer body block"
+        # (1) every block is a function of its own: no Python break/continue may be left outside a loop of that function
+        bad = [(f.name, bare_loop_control(f.body)) for f in all_functions(top) if bare_loop_control(f.body)]
+        eng.check(f"{name}#ensures.no_bare_break_or_continue_outside_a_loop_inside_a_block_function", not bad, detail=f"{detail}; found {bad}")
+        inner = checks(inner_stmts)
+        outer = checks(top)
+        tmp = I.resolve_global(extract.get_module(CP), "temporaryName")
+        # (2) RETURN from a block of the inner statement reaches the enclosing statement unchanged (value included)
+        r = returned(inner["RETURN"]) if "RETURN" in inner else None
+        ok = isinstance(r, ast.Return) and isinstance(r.value, ast.Name) and r.value.id == tmp
+        eng.check(f"{name}#ensures.inner_statement_passes_a_RETURN_conclusion_on_unchanged_with_its_value", ok, detail=f"{detail}; the inner epilogue returns {ast.dump(r.value) if isinstance(r, ast.Return) and isinstance(r.value, ast.AST) else r!r}")
+        # (3) BREAK / CONTINUE from a block of the inner statement
+        for kind, cname, node_ty in (("break", "BREAK", ast.Break), ("continue", "CONTINUE", ast.Continue)):
+            if K != kind:
+                continue
+            st = returned(inner[cname]) if cname in inner else None
+            if in_loop_of_block:
+                # the loop is in the same function as the inner statement: it is left / continued right there
+                eng.check(f"{name}#ensures.{kind}_acts_on_the_loop_of_the_block_that_contains_the_inner_statement", isinstance(st, node_ty), detail=detail)
+            else:
+                ok = isinstance(st, ast.Return) and isinstance(st.value, ast.Attribute) and st.value.attr == cname
+                eng.check(f"{name}#ensures.inner_statement_passes_{cname}_on_as_the_conclusion_of_the_enclosing_block", ok, detail=detail)
+        # (4) the enclosing statement treats what it receives exactly as if its own block had concluded that way
+        for kind, cname, node_ty in (("break", "BREAK", ast.Break), ("continue", "CONTINUE", ast.Continue)):
+            needed = K == kind and not in_loop_of_block
+            have = cname in outer
+            eng.check(f"{name}#ensures.enclosing_statement_handles_{cname}_iff_one_of_its_blocks_can_conclude_so", have == needed, detail=f"{detail}; epilogue of the enclosing statement {'has' if have else 'lacks'} the {cname} check")
+            if have and needed:
+                eng.check(f"{name}#ensures.enclosing_statement_executes_the_{kind}_itself", isinstance(returned(outer[cname]), node_ty))
+        r = returned(outer["RETURN"]) if "RETURN" in outer else None
+        ok = isinstance(r, ast.Return) and isinstance(r.value, ast.Attribute) and r.value.attr == "return_value"
+        eng.check(f"{name}#ensures.enclosing_statement_returns_the_value_of_a_RETURN_conclusion_from_the_behavior", ok)
+        self = env.vars["self"]
+        eng.check(f"{name}#ensures.translator_flags_of_the_enclosing_context_restored", self.fields["inInterruptBlock"] is False and self.fields["inLoop"] is outer_in_loop and self.fields["usedBreak"] is False and self.fields["usedContinue"] is False and self.fields["inTryInterrupt"] is False)
+
+    reg.add(
+        C.Contract(
+            f"{CP}:ScenicToPythonTransformer.visit_TryInterrupt",
+            params=dict(self=C.Const(None), node=C.Const(None)),
+            setup=setup,
+            post=post,
+            inline=["ScenicToPythonTransformer.visit_TryInterrupt", "ScenicToPythonTransformer.visit_Break", "ScenicToPythonTransformer.visit_Continue", "ScenicToPythonTransformer.visit_Return", "ScenicToPythonTransformer.visit_While"],
+            replay=replay_nested_control,
+            bounded=True,
+            note="bounded: one try-interrupt nested in the body block of another (directly or inside a `while` of that block), inner handler = return 42 / break / continue; "
+            "`visit` dispatches to the REAL visit_TryInterrupt / visit_Break / visit_Continue / visit_Return / visit_While and is the identity elsewhere",
+            properties=("C13",),
+        ),
+        key=f"{CP}:ScenicToPythonTransformer.visit_TryInterrupt[nested]",
+    )
+
+
+_register_flat = register
+
+
+def register(reg):  # noqa: F811
+    _register_flat(reg)
+    register_nested(reg)
+
+
 # ----------------------------------------------------------------------------------------------------
 # replay drivers (REAL code)
 
@@ -707,3 +883,107 @@ def replay_behavior_start(inputs, clause):
     return None
 
 
+
+
+NESTED_RETURN = """
+behavior B():
+    try:
+        try:
+            take 1
+            take 2
+        interrupt when simulation().currentTime == 1:
+            return
+        take 3
+    interrupt when False:
+        wait
+    take 4
+    take 5
+ego = new Object with behavior B
+"""
+
+NESTED_BREAK = """
+behavior B():
+    while True:
+        try:
+            try:
+                take 1
+                take 2
+            interrupt when simulation().currentTime == 1:
+                break
+            take 3
+        interrupt when False:
+            wait
+        take 4
+    take 5
+    take 6
+ego = new Object with behavior B
+"""
+
+NESTED_CONTINUE = """
+behavior B():
+    x = 0
+    while x < 2:
+        x += 1
+        try:
+            try:
+                take 10
+                take 11
+            interrupt when simulation().currentTime in (1, 3):
+                continue
+            take 12
+        interrupt when False:
+            wait
+        take 13
+    take 14
+ego = new Object with behavior B
+"""
+
+NESTED_LOOP_IN_BLOCK = """
+behavior B():
+    try:
+        while True:
+            try:
+                take 1
+                take 2
+            interrupt when simulation().currentTime == 1:
+                break
+        take 3
+    interrupt when False:
+        wait
+    take 4
+ego = new Object with behavior B
+"""
+
+
+def replay_nested_control(inputs, clause):
+    """The demo programs through the real front end and the DummySimulator."""
+    import scenic
+    from scenic.core.simulators import DummySimulator
+
+    cases = [
+        ("`return` in a handler of a try-interrupt nested in the body of another one", NESTED_RETURN, 6, [1]),
+        ("`break` in a handler of a nested try-interrupt inside `while True`", NESTED_BREAK, 6, [1, 5, 6]),
+        ("`continue` in a handler of a nested try-interrupt inside a while loop", NESTED_CONTINUE, 7, [10, 14]),
+        ("`break` in a handler of a try-interrupt inside a `while` of the body block of another one", NESTED_LOOP_IN_BLOCK, 5, [1, 3, 4]),
+    ]
+    # the program matching the case of the counter-model first
+    import ast as _ast
+
+    try:
+        K, in_loop, _outer = _ast.literal_eval(inputs["case"])
+        first = 0 if K == "return" else 3 if in_loop else 1 if K == "break" else 2
+        cases = [cases[first]] + [c for i, c in enumerate(cases) if i != first]
+    except Exception:  # noqa
+        pass
+    for what, src, steps, want in cases:
+        try:
+            sc = scenic.scenarioFromString(src)
+            scene, _ = sc.generate()
+            sim = DummySimulator().simulate(scene, maxSteps=steps)
+        except Exception as e:  # noqa
+            return f"{what}: the program is refused with {type(e).__name__}: {e}"
+        ego = scene.objects[0]
+        acts = [a[ego][0] for a in sim.result.actions if a[ego]]
+        if acts != want:
+            return f"{what}: the agent's actions are {acts}; documented: {want}"
+    return None
